@@ -27,6 +27,8 @@ impl BiAtomicU32 {
             let new_num1 = num1_func(old_num1);
             let new_num2 = num2_func(old_num2);
             let new_num = Self::combine_two_num(new_num1, new_num2);
+            #[cfg(feature = "verif")]
+            crate::common::verif_sched::point("biatomic:between_load_and_cas");
             let success = self
                 .inner
                 .compare_exchange(old_num, new_num, Ordering::SeqCst, Ordering::SeqCst)
